@@ -66,7 +66,10 @@ def run(ctx):
                     at = fl.atom(a)
                     if at:
                         tests.add(fmt_desc(panic.norm(at["test"])))
-                ok = any(any(m in t for m in MEMBERSHIP) or "insert(" in t or "contains(" in t or "is_disjoint(" in t for t in tests)
+                # `members.all(|n| is_node(n) && seen.insert(n))` bound to a variable: the tests sit in the closure (its
+                # membership / identity operations are required by the first part of this rule)
+                tests = {panic.norm_str(panic.expand_names(fl, panic.norm(fl.atom(a)["test"]))) for (a, s_) in ip.transitive_control_deps(bb) if fl.atom(a)} | tests
+                ok = any(any(m in t for m in MEMBERSHIP) or "insert(" in t or "contains(" in t or "is_disjoint(" in t or ((t.startswith("all(") or t.startswith("any(") or "(all(" in t or "(any(" in t) and has_mem and has_id) for t in tests)
                 ctx.require(ok, "R-C12-1", "false-under-test|%d" % n_false, "a `false` answer is conditional on a membership / identity test", "a `false` answer is returned under %s" % sorted(tests), loc_str(d.span))
             else:
                 ctx.violation("R-C12-1", "const-true", "is_partition returns a constant `true`", loc_str(d.span))
